@@ -113,6 +113,7 @@ Definition meth0 (m : string) (r : val) : outcome :=
   | "as_ref", v => Ret v                                (* NonNull::as_ref: the pointee is the record itself *)
   | "as_ptr", v => Ret v                                (* NonNull::as_ptr: addresses are numbers *)
   | "cast", v => Ret v
+  | "ok", v => Ret v                                    (* Result::ok: Result with one error value = Option *)
   | "unwrap", VSome v => Ret v
   | "unwrap", VNone => Panic
   | "expect", VSome v => Ret v                          (* the message is not a value *)
